@@ -48,6 +48,48 @@ def c10(ctx):
     ctx.trace_validate(trace, "escape-drive")
 
 
+def printer_slice(ctx, sl, hook="none", extra_consts=None, emit=True):
+    """MCPrinter on one slice: TLC runs the printer specification on every enumerated case, checks the
+    model-level invariants, and every case is replayed on the real printer (byte-exact + the property's predicates)"""
+    consts = dict(Slice='"%s"' % sl, HookKind='"%s"' % hook)
+    consts.update(extra_consts or {})
+    return ctx.tlc_replay("MCPrinter", "Printer.cfg", ["printer-replay", "-prop", ctx.prop, "-hook", hook], consts=consts)
+
+
+def printer_control_f3(ctx):
+    """vacuity control: on the specification of the code BEFORE the repair of F3 (nested printers dropping the
+    override) TLC must find the C06 invariant violated"""
+    st = ctx.tlc_only("MCPrinter", "Printer.cfg", expect_ok=False,
+                      consts=dict(Slice='"wrap"', EmitOn="FALSE", NestedOverride='"dropped"'))
+    ctx.control("C06 invariant on the pre-repair model (NestedOverride=dropped) must fail",
+                (not st["ok"]) and '"C06"' in st["text"])
+
+
+def c02(ctx):
+    for sl in tier(ctx, ["qcls", "wrap"], ["cls", "wrap", "panic", "smoke"]):
+        printer_slice(ctx, sl)
+
+
+def c05(ctx):
+    printer_slice(ctx, tier(ctx, "qcls", "cls"))
+
+
+def c06(ctx):
+    printer_slice(ctx, "wrap")
+    if ctx.tier == "thorough":
+        printer_slice(ctx, "wrap", hook="plain")
+    printer_control_f3(ctx)
+
+
+def c11(ctx):
+    printer_slice(ctx, "panic")
+    buffer_model(ctx)
+    if ctx.tier == "thorough":
+        printer_slice(ctx, "smoke")
+        printer_slice(ctx, "wrap")
+        buffer_traces(ctx)
+
+
 def c04(ctx):
     cfgs, maxtok = tier(ctx, ("{1, 2, 3, 4, 5, 6, 7}", 3), ("{1, 2, 3, 4, 5, 6, 7}", 4))
     ctx.tlc_replay("MCFormat", "Format.cfg", ["format-replay", "-prop", "C04"], consts=dict(MaxTok=maxtok, ArgConfigs=cfgs))
@@ -61,11 +103,18 @@ def c14(ctx):
 def c01(ctx):
     buffer_model(ctx)
     buffer_traces(ctx)
+    printer_slice(ctx, tier(ctx, "qbytes", "bytes"))
+    if ctx.tier == "thorough":
+        printer_slice(ctx, "smoke")
+        printer_slice(ctx, "panic")
 
 
 def c03(ctx):
     buffer_model(ctx)
     buffer_traces(ctx)
+    printer_slice(ctx, tier(ctx, "qbytes", "bytes"))
+    if ctx.tier == "thorough":
+        printer_slice(ctx, "smoke")
 
 
 def c09(ctx):
@@ -78,7 +127,42 @@ def c13(ctx):
     buffer_traces(ctx)
 
 
+PRINTER_RULE = ("TLC runs the Printer specification (transcription of printArg/handleMethods/printValue/catchPanic/"
+                "badVerb/doPrint/doPrintf/nested printers over abstract operand terms with scripted user methods) on every case "
+                "of the named slices and checks the model-level invariants; every case is replayed on the real printer: output "
+                "compared byte for byte with the prediction (leaf renderings supplied by fmt), user-method call order compared, "
+                "and the property's predicate evaluated on the real output; distinct = distinct real outputs. ")
+
 PROPS = {
+    "C02": dict(run=c02, exhaustive=True, rule=PRINTER_RULE + (
+        "C02: each case is run twice with two instantiations of every payload the statement does not declare safe "
+        "(strings with disjoint sentinel alphabets, equal emptiness and line-feed skeleton; distinct numbers), public "
+        "payloads shared; Redact() of both results must be byte-identical and free of sentinels. Slices: classification "
+        "shapes x leaf kinds x verbs (cls), wrapper nestings (wrap), panicking methods (panic)"), assumptions=[
+        "pointer values and type names are public; cases printing pointer addresses are skipped (addresses differ per allocation)",
+        "container lengths, emptiness and line-feed positions are part of the shape (property text)"]),
+    "C05": dict(run=c05, exhaustive=True, rule=PRINTER_RULE + (
+        "C05: slice cls = 10 container shapes (top, two operands, slice, map value, map key, struct exported/unexported, "
+        "pointer-to-struct, nested, interface field) x 13 x 13 leaf kinds (unsafe string/int/bool/float, SafeValue, "
+        "SafeValue+Stringer, registered type, SafeMessager, Stringer, error, nil, Safe(string), Safe(int)) x 10 directives "
+        "+ Sprint; model invariant: deleting envelopes leaves all structure and exactly the tokens the statement-level "
+        "classification (an inherited attribute, independent of modes/overrides) declares safe; the same equation is "
+        "evaluated on the real output with the Go port of that classification"), assumptions=[
+        "<nil>, type names, field names and punctuation are structure (visible); a SafeValue behind an unexported field is "
+        "treated as unsafe by the code (over-redaction, accepted, DESIGN 11)"]),
+    "C06": dict(run=c06, exhaustive=True, rule=PRINTER_RULE + (
+        "C06: slice wrap = 27 values x (12 without own classification, 15 with: SafeValue, registered, SafeMessager, "
+        "Safe(), RedactableString, SafeFormatter scripts calling Print/Printf/Safe*/Unsafe*/Write, Formatters that "
+        "discover the SafePrinter and call Print/Printf) x 9 wrapper nestings (U S US SU UUS SSU USU and inside slices) "
+        "x 9 directives + Sprint; predicates on the real output: Unsafe-outermost => nothing of the operand outside "
+        "envelopes; Safe-outermost of an unclassified value => no envelope; characters equal fmt's"), assumptions=[
+        "the 'characters are fmt's' clause is applied to Unsafe(x) for fmt-compatible x and to Safe(x) for x without own classification; %T and %p excluded"]),
+    "C11": dict(run=c11, exhaustive=True, rule=PRINTER_RULE + (
+        "C11: slice panic = 6 payload kinds x 16 panicking objects (every method kind; SafeFormat/Format scripts with the "
+        "panic after 0..3 writes, inside nested Print/Printf, nil receivers) x 6 contexts (top, Safe, Unsafe, slice, struct "
+        "fields exported/unexported) x 4 directives + Sprint, each also with hot payloads; plus the exhaustive buffer model "
+        "with every rune class incl. surrogates, negative and > U+10FFFF"), assumptions=[
+        "a panic raised while printing the panic payload propagates, as in fmt (property text)"]),
     "C04": dict(run=c04, exhaustive=False, rule=(
         "(1) TLC enumerates every format string of at most MaxTok tokens over {% # 0 + - space 1 * . [ ] v d Z e-acute a} for "
         "7 operand configurations and checks the parser invariants; each format is run through redact.Sprintf and fmt.Sprintf "
